@@ -121,30 +121,47 @@ GenMaster(which, c) ==
 (* every encoding of a key and what it must parse to: kind x form *)
 Kinds == {"smpriv", "smpub", "supriv", "empriv", "empub", "eupriv"}
 FormsOf(kind) == IF kind \in {"smpriv", "empriv"} THEN {"asn1", "seq"} ELSE {"asn1", "raw", "seq", "craw", "cbits"}
+(* the encoding `in` of the key of that kind in that form, its MarshalASN1 form, its canonical bytes u *)
+KeyEnc(kind, form, uid, hid) ==
+  LET h1 == S!HId(uid, hid)
+      spub == S!PpubS(ks)
+      epub == S!PpubE(ke)
+      u == CASE kind = "smpub" -> S!U2(spub) [] kind = "empub" -> S!U1(epub)
+             [] kind = "supriv" -> S!U1(S!DsA(ks, h1)) [] kind = "eupriv" -> S!U2(S!DeB(ke, h1))
+             [] kind = "smpriv" -> S!Scalar32(ks) [] kind = "empriv" -> S!Scalar32(ke)
+      c == CASE kind = "smpub" -> S!C2c(spub) [] kind = "empub" -> S!C1c(epub)
+             [] kind = "supriv" -> S!C1c(S!DsA(ks, h1)) [] kind = "eupriv" -> S!C2c(S!DeB(ke, h1))
+             [] OTHER -> <<>>
+      more == CASE kind = "supriv" -> <<S!BitsASN1(S!U2(spub))>> [] kind = "eupriv" -> <<S!BitsASN1(S!U1(epub))>>
+                [] kind = "smpriv" -> <<S!BitsASN1(S!U2(spub))>> [] OTHER -> <<>>
+      asn1 == IF kind = "smpriv" THEN S!MasterPrivASN1(ks) ELSE IF kind = "empriv" THEN S!MasterPrivASN1(ke) ELSE S!BitsASN1(u)
+  IN [u |-> u, asn1 |-> asn1,
+      in |-> CASE form = "asn1" -> asn1
+               [] form = "raw" -> u
+               [] form = "seq" -> S!SeqOf(<<asn1>> \o more)
+               [] form = "craw" -> c
+               [] form = "cbits" -> S!BitsASN1(c)]
 Codec(kind, form, ulen, hid) ==
   /\ nops < MaxOps
   /\ IF kind \in {"smpriv", "smpub", "supriv"} THEN ks # <<>> ELSE ke # <<>>
   /\ form \in FormsOf(kind)
   /\ LET uid == Uid(ulen)
-         h1 == S!HId(uid, hid)
-         spub == S!PpubS(ks)
-         epub == S!PpubE(ke)
-         u == CASE kind = "smpub" -> S!U2(spub) [] kind = "empub" -> S!U1(epub)
-                [] kind = "supriv" -> S!U1(S!DsA(ks, h1)) [] kind = "eupriv" -> S!U2(S!DeB(ke, h1))
-                [] kind = "smpriv" -> S!Scalar32(ks) [] kind = "empriv" -> S!Scalar32(ke)
-         c == CASE kind = "smpub" -> S!C2c(spub) [] kind = "empub" -> S!C1c(epub)
-                [] kind = "supriv" -> S!C1c(S!DsA(ks, h1)) [] kind = "eupriv" -> S!C2c(S!DeB(ke, h1))
-                [] OTHER -> <<>>
-         more == CASE kind = "supriv" -> <<S!BitsASN1(S!U2(spub))>> [] kind = "eupriv" -> <<S!BitsASN1(S!U1(epub))>>
-                   [] kind = "smpriv" -> <<S!BitsASN1(S!U2(spub))>> [] OTHER -> <<>>
-         asn1 == IF kind = "smpriv" THEN S!MasterPrivASN1(ks) ELSE IF kind = "empriv" THEN S!MasterPrivASN1(ke) ELSE S!BitsASN1(u)
-         in == CASE form = "asn1" -> asn1
-                 [] form = "raw" -> u
-                 [] form = "seq" -> S!SeqOf(<<asn1>> \o more)
-                 [] form = "craw" -> c
-                 [] form = "cbits" -> S!BitsASN1(c)
+         e == KeyEnc(kind, form, uid, hid)
      IN /\ UNCHANGED <<ks, ke, arts>>
-        /\ Emit([op |-> "codec", kind |-> kind, form |-> form, uid |-> HexB(uid), hid |-> hid, in |-> HexB(in), asn1 |-> HexB(asn1), exp |-> HexB(u)])
+        /\ Emit([op |-> "codec", kind |-> kind, form |-> form, uid |-> HexB(uid), hid |-> hid, in |-> HexB(e.in), asn1 |-> HexB(e.asn1), exp |-> HexB(e.u)])
+(* a user key that came back from an encoding is USED: the decryption key unwraps what was wrapped for its identity; the   *)
+(* signing key signs and the signature verifies - if the encoding carried the master public key ("seq"); the other forms    *)
+(* yield a key without it ("handled separately" says the library): then signing / starting a key exchange may be refused   *)
+(* but must not crash (res nopanic).                                                                                        *)
+UseKey(kind, form, ulen, hid) ==
+  /\ nops < MaxOps /\ kind \in {"supriv", "eupriv"}
+  /\ IF kind = "supriv" THEN ks # <<>> ELSE ke # <<>>
+  /\ form \in FormsOf(kind)
+  /\ LET uid == Uid(ulen)
+         e == KeyEnc(kind, form, uid, hid)
+     IN /\ UNCHANGED <<ks, ke, arts>>
+        /\ Emit([op |-> "usekey", kind |-> kind, form |-> form, uid |-> HexB(uid), hid |-> hid, in |-> HexB(e.in), exp |-> HexB(e.u),
+                 script |-> <<HexB(S!Scalar32(NonceVal("r3")))>>, res |-> IF form = "seq" THEN "works" ELSE "nopanic"])
 
 (* ------------------------------------------------------------------ signature *)
 Sign(ulen, hid, mc, mlen, rc, how) ==
